@@ -108,6 +108,14 @@ Proof.
     (destruct H as [H1 H2]; try discriminate H1; destruct H2 as [H2|H2]; discriminate H2).
 Qed.
 
+Lemma loop_expansion_mode_table : forall (csum : bool) (nz : nmode),
+  (expansion_mode nz = true -> expand_route csum nz = requested nz)
+  /\ ((expansion_mode nz = true \/ nz = NGlobal) -> compute_gloop_route csum nz = requested nz)
+  /\ (expand_route csum nz = Rejected <-> (csum = true /\ (nz = NReturn \/ nz = NGlobal))).
+Proof.
+  intros csum nz. split; [apply expand_route_spec | split; [apply compute_gloop_route_spec | apply expand_route_rejects]].
+Qed.
+
 (* ---- Part 2: the value of the expansion --------------------------------------- *)
 
 Section Values.
